@@ -161,7 +161,7 @@ def put_here_cases(rng, n):
 
 
 OOP = ("gzip", "bzip2", "lzma")
-QUERY_KEY = "C17/query/gd_eof-gd_nframes-reset-the-pointer-of-a-field-open-for-writing"
+QUERY_KEY = "C17/query/gd_eof-of-a-derived-field-resets-the-pointer-of-inputs-open-for-writing"
 
 
 def gen_write_history(rng):
@@ -216,8 +216,10 @@ def gen_write_history(rng):
         elif u < 0.93:
             # a query (gd_eof, gd_nframes) in the middle of the writes: it reports the data written so far
             # and leaves the pointer alone
-            if rng.random() < 0.6: steps.append(("e a", "e %d 0" % eof))
-            else: steps.append(("n", "n %d 0" % (fo + len(data) // spf)))
+            q = rng.random()
+            if q < 0.4: steps.append(("e a", "e %d 0" % eof))
+            elif q < 0.7: steps.append(("n", "n %d 0" % (fo + len(data) // spf)))
+            else: steps.append(("e l", "e %d 0" % eof))        # the same question through a derived field
             steps.append(("t a", "t %d 0" % ptr)); after_query.add(len(steps) - 1)
         else:
             steps.append((rng.choice(["c a", "f a"]), None)); ptr = FO
@@ -239,7 +241,7 @@ def run_write_history(exe, d, case, steps):
     FO = case["foff"] * case["spf"]
     for i, ((s, exp), got) in enumerate(zip(steps, lines)):
         if exp is not None and got.strip() != exp:
-            if i in case["after_query"] and got.strip() == "t %d 0" % FO and steps[i - 1][1] == lines[i - 1].strip():
+            if i in case["after_query"] and got.strip() == "t %d 0" % FO and steps[i - 1][1] == lines[i - 1].strip() and steps[i - 1][0] == "e l":
                 # the listed finding: the query answered correctly but sent the pointer back to the beginning
                 return (i, steps[i - 1][0] + "; " + s, exp, got.strip(), QUERY_KEY), lines
             return (i, s, exp, got.strip()), lines
